@@ -187,7 +187,7 @@ def viol(rec, cfg, choices, sig, expected, observed):
 
 
 def gen_cases(ctx):
-    N = ctx.pick(3, 5)
+    N = ctx.pick(4, 6)
     # (A) outcome trees
     for n in range(0, N + 1):
         for codes, excs in itertools.product(cr.CODESETS, cr.EXCSETS):
@@ -248,7 +248,7 @@ def run(ctx):
                 '(periodic / exponential / Fibonacci, caps below / between / above, scripted jitter) x attempts 0..%d; '
                 '(C) 7 placements (none, client-wide, per-request, overriding, disabled) x request kind. state = one complete '
                 'execution (leaf of a choice tree); non-trivial = at least one retry happened'
-                % (ctx.pick(3, 5), len(list(backoff_specs())), ctx.pick(3, 6)))
+                % (ctx.pick(4, 6), len(list(backoff_specs())), ctx.pick(3, 6)))
     ctx.assumptions += ['L7: Fibonacci 1,2,3,5.. or 1,1,2,3..; time.sleep / asyncio.sleep are the only clocks (replaced by recorders)',
                         'element-level errors inside a batch are not retry triggers in either reading and are not in the alphabet',
                         'a notification whose send raises a listed exception may be retried or re-raised at once']
